@@ -197,3 +197,16 @@ Theorem TIE_genir_fuel_example :
   /\ names_ok ex_d_mv ex_g_mv = true /\ graph_outputs_of ex_d_mv ex_g_mv = true.
 Proof. exact fuel_example. Qed.
 Print Assumptions TIE_genir_fuel_example.
+
+(** FUEL, the [Some] half of fuel sufficiency -- for EVERY definition, graph, capacity, kind: an answer obtained with the fuel
+    [ig_fuel g] that [generate_ir] supplies is the answer for every larger fuel (both the depth of the recursion and the rounds of
+    generate_subgraphs' `while`); more generally the answer is monotone in the fuel. *)
+Theorem TIE_genir_fuel_stable : forall cap d g k f,
+  generate_ir_fuel cap (ig_fuel g) d g k = Some f -> forall m, (ig_fuel g <= m)%nat -> generate_ir_fuel cap m d g k = Some f.
+Proof. exact fuel_stable. Qed.
+Print Assumptions TIE_genir_fuel_stable.
+
+Theorem TIE_genir_family_fuel_mono : forall fuel fuel' k, (fuel <= fuel')%nat -> forall n n', (n <= n')%nat -> forall g o,
+  ole (to_ir_iteration_graph fuel n g o k) (to_ir_iteration_graph fuel' n' g o k).
+Proof. exact family_mono. Qed.
+Print Assumptions TIE_genir_family_fuel_mono.
